@@ -336,19 +336,17 @@ def new_op(d, ixs, n):
 
 class HistBase(Family):
     batch = 50
-    case_timeout = 2.5
+    case_timeout = 10.0
     _hang = False
 
     def setup(self):
-        gc.disable()
-
-    _n = 0
+        # no Subset objects are created in these histories (the only glue finaliser that
+        # broadcasts), so the cyclic collector stays enabled: no long explicit collections inside
+        # the per-case alarm window
+        gc.enable()
 
     def reset(self):
         Registry().clear()
-        HistBase._n += 1
-        if HistBase._n % 200 == 0:
-            gc.collect()
 
     def run_impl(self, case):
         thr, ops = case
@@ -604,7 +602,7 @@ class Histories(HistBase):
     budget_share = 1.2
 
     def cases(self, tier, rng):
-        count = 6000 if tier == "quick" else 150000
+        count = 12000 if tier == "quick" else 150000
         for _ in range(count):
             yield self.one(rng, tier)
 
